@@ -415,6 +415,12 @@ def shadow_scenarios():
         [["new_space", "-", "A", []], ["set_ref", "A", "r", 3], ["add_bases", "B", ["A"]], ["add_bases", "S", ["B"]]],
         [["set_ref", "S2", "r", 2]],
         [["add_bases", "S2", ["B"]]],
+        # the space THROUGH which the model-level reference was read is deleted (`BaseSpaceImpl.on_delete`,
+        # /repo 40cbe69): the readers in other spaces (`T.c`, `T.d`) must go; `S2` alone: `T.c2`
+        [["del_space", "S"]],
+        [["del_space", "S2"]],
+        [["set_ref", "S", "r", 7], ["evalall"], ["del_space", "S"]],
+        [["add_bases", "S", ["B"]], ["evalall"], ["del_space", "B"]],
     ]
     cases = []
     for cached in (1, 0):
